@@ -16,6 +16,7 @@
 From Coq Require Import ZArith Reals List Bool.
 From Flocq Require Import Core BinarySingleNaN.
 Require Import Rig.Model.Base Rig.Model.FixFloat Rig.Spec.FixFloat Rig.Proofs.FixFloat.
+Require Import Rig.Model.FixFloatSyntax Rig.Generated.GenFixFloat Rig.Model.FixFloatSource Rig.Proofs.FixFloatSource.
 Open Scope Z_scope.
 
 (* ---- float -> fixed point (scalar converter) ------------------------------------------------ *)
@@ -177,6 +178,57 @@ Theorem C16_fix_to_float_agrees :
     valid_format signed n_bits n_frac -> 0 <= w < 2 ^ n_bits ->
     fix_to_float signed n_bits n_frac w = fp_to_float n_frac (word_value signed n_bits w).
 Proof. exact unfix_agrees. Qed.
+
+(* ---- error clauses of the array converter and of fix_to_float ------------------------------------- *)
+
+(* an unsupported width / a format outside validate_fp_params' limits is refused with the documented
+   ValueError *)
+Theorem C16_documented_errors :
+  (forall signed n_bits n_frac (x : b64),
+     n_bits <> 8 -> n_bits <> 16 -> n_bits <> 32 -> n_bits <> 64 ->
+     np_float_to_fix signed n_bits n_frac x = Failed 1) /\
+  (forall signed n_bits n_frac w,
+     n_bits < 1 \/ n_frac < 0 \/ n_bits - sbit signed < n_frac ->
+     fix_to_float signed n_bits n_frac w = Failed 0).
+Proof. exact (conj numpy_invalid_width unfix_invalid_format). Qed.
+
+(* ---- tie to the source text (T) ------------------------------------------------------------------------
+   tools/dump_c16.py re-extracts every function of rig/type_casts.py from the source text on each run into
+   the syntax of Model/FixFloatSyntax.v (Generated/GenFixFloat.v; fail closed).  Evaluating the extracted
+   programs (Model/FixFloatSource.v) gives EXACTLY the model functions the theorems above are about, for
+   all inputs, errors included: a changed expression in the source (round for int, another clamp order,
+   another bound, a dropped int() coercion, a missing saturation fix-up ...) breaks this theorem.
+   (float_to_fix: n_bits >= 0, because for a negative width Python's `2**n_bits` is a float, outside the
+   evaluator's subset; such a format is rejected by validate_fp_params anyway.) *)
+Theorem C16_source_is_model :
+  (forall signed n_bits n_frac x, src_float_to_fp signed n_bits n_frac x = float_to_fp signed n_bits n_frac x) /\
+  (forall n_frac v, src_fp_to_float n_frac v = fp_to_float n_frac v) /\
+  (forall s n f, src_validate (VBool s) (VInt n) (VInt f) =
+                 bind (validate_fp_params s n f) (fun mm => Ok (VTup (VInt (fst mm)) (VFlt (snd mm))))) /\
+  (forall signed n_bits n_frac x, 0 <= n_bits ->
+     src_float_to_fix signed n_bits n_frac x = float_to_fix signed n_bits n_frac x) /\
+  (forall signed n_bits n_frac w, src_fix_to_float signed n_bits n_frac w = fix_to_float signed n_bits n_frac w) /\
+  (forall signed n_bits n_frac x,
+     src_np_float_to_fix signed n_bits n_frac x = np_float_to_fix signed n_bits n_frac x) /\
+  (forall n_frac v, src_np_fix_to_float n_frac v = np_fix_to_float n_frac v).
+Proof. exact source_is_model. Qed.
+
+(* hence the property's sentences hold of the extracted programs themselves *)
+Theorem C16_source_sentences :
+  (forall signed n_bits n_frac (x : b64),
+     1 <= n_bits -> in_domain n_frac x ->
+     src_float_to_fp signed n_bits n_frac x = Ok (fp_spec signed n_bits n_frac (B2R x))) /\
+  (forall signed n_bits n_frac (x : b64),
+     n_bits = 8 \/ n_bits = 16 \/ n_bits = 32 \/ n_bits = 64 -> in_domain n_frac x ->
+     src_np_float_to_fix signed n_bits n_frac x = src_float_to_fp signed n_bits n_frac x) /\
+  (forall signed n_bits n_frac (x : b64),
+     valid_format signed n_bits n_frac -> in_domain n_frac x ->
+     exists v, src_float_to_fp signed n_bits n_frac x = Ok v /\
+               src_float_to_fix signed n_bits n_frac x = Ok (v mod 2 ^ n_bits)) /\
+  (forall signed n_bits n_frac w,
+     valid_format signed n_bits n_frac -> 0 <= w < 2 ^ n_bits ->
+     src_fix_to_float signed n_bits n_frac w = src_fp_to_float n_frac (word_value signed n_bits w)).
+Proof. exact source_sentences. Qed.
 
 (* ---- hypotheses are satisfiable ------------------------------------------------------------------ *)
 Example C16_domain_inhabited :
